@@ -314,6 +314,12 @@ def Sys.drain (s : Sys) (i : Nat) : Sys :=
       | some fs => s.setNode i { n with fs := some { fs with out := [] } }
       | none => s
 
+/-- a slow consumer reads the first `k` events of plain subscription `i` and stops again -/
+def Sys.sip (s : Sys) (i : Nat) (k : Nat) : Sys :=
+  match s.node i with
+  | none => s
+  | some n => if n.kind == "sub" then s.setNode i { n with q := n.q.drop k, bAt := n.bAt - k } else s
+
 def Sys.monDrain (s : Sys) (i : Nat) : Sys :=
   match s.node i with
   | none => s
